@@ -75,8 +75,8 @@ Section Canon.
       destruct (portal_of a b wm') as [oy|] eqn:P2; [destruct Hy as [<-|[]]|destruct Hy].
       destruct wm as [w1 m1], wm' as [w2 m2].
       apply portal_of_spec in P1, P2.
-      destruct P1 as (_ & pk1 & cs1 & ty1 & _ & A1 & _ & _ & ->).
-      destruct P2 as (_ & pk2 & cs2 & ty2 & _ & A2 & _ & _ & ->).
+      destruct P1 as (_ & pk1 & cs1 & ty1 & pw1 & _ & A1 & _ & _ & _ & ->).
+      destruct P2 as (_ & pk2 & cs2 & ty2 & pw2 & _ & A2 & _ & _ & _ & ->).
       cbn [sort_key] in E. inversion E as [[E1 E2 E3]].
       rewrite (att_key_inj pk1 pk2 E1 E2 E3) in A1. rewrite A1 in A2. inversion A2; subst w2.
       apply Hni. apply in_map_iff. exists (w1, m2). split; [reflexivity|exact Hin].
@@ -153,8 +153,8 @@ Section InstCanon.
   Proof.
     destruct Hq as (_ & Bq & _). unfold diff_edge_atts. apply (NoDup_keys_flat_map kb); [exact Bq| |].
     - intros kv _. cbv zeta. one_or_none.
-    - intros kv x _ Hx. cbv zeta in Hx. destruct (opt_eqb _ _ _); [destruct Hx|].
-      destruct (mem_key _ ska); [destruct Hx|]. destruct Hx as [<-|[]]. reflexivity.
+    - intros kv x _ Hx. cbv zeta in Hx. destruct (opt_eqb _ _ _ && _); [destruct Hx|].
+      destruct (mem_key _ ska && _); [destruct Hx|]. destruct Hx as [<-|[]]. reflexivity.
   Qed.
 
   Lemma diff_edges_nodup : NoDup (map sort_key (diff_edges w p q)).
@@ -167,11 +167,11 @@ Section InstCanon.
     - apply (NoDup_keys_flat_map kb); [exact Bq| |].
       + intros kv _. cbv zeta. destruct (nfind (fst kv) (s_edges p)) as [rb|]; [|one_or_none].
         destruct (erec_eqb rb (snd kv)); [constructor|].
-        destruct (e_from rb =? e_from (snd kv)); cbn; [one_or_none|].
+        destruct (recreated q rb (snd kv)); cbn; [|one_or_none].
         constructor; [|one_or_none]. intros [E|[]]. inversion E.
       + intros kv x _ Hx. cbv zeta in Hx. destruct (nfind (fst kv) (s_edges p)) as [rb|].
         * destruct (erec_eqb rb (snd kv)); [destruct Hx|]. apply in_app_or in Hx. destruct Hx as [Hx|[<-|[]]]; [|reflexivity].
-          destruct (_ =? _); [destruct Hx|]. destruct Hx as [<-|[]]. reflexivity.
+          destruct (recreated q rb (snd kv)); [|destruct Hx]. destruct Hx as [<-|[]]. reflexivity.
         * destruct Hx as [<-|[]]. reflexivity.
     - intros x y Hx Hy E. apply in_flat_map in Hx, Hy.
       destruct Hx as [[e1 r1] [I1 Hx]], Hy as [[e2 r2] [I2 Hy]]. cbn [fst snd] in Hx, Hy.
@@ -180,7 +180,7 @@ Section InstCanon.
       assert (e1 = e2); [|subst; congruence].
       destruct (nfind e2 (s_edges p)) as [rb|].
       + destruct (erec_eqb rb r2); [destruct Hy|]. apply in_app_or in Hy. destruct Hy as [Hy|[<-|[]]].
-        * destruct (_ =? _); [destruct Hy|]. destruct Hy as [<-|[]]. cbn in E. inversion E; reflexivity.
+        * destruct (recreated q rb r2); [|destruct Hy]. destruct Hy as [<-|[]]. cbn in E. inversion E; reflexivity.
         * cbn in E. inversion E.
       + destruct Hy as [<-|[]]. cbn in E. inversion E.
   Qed.
@@ -191,12 +191,12 @@ Section InstCanon.
     - apply NoDup_map_app; [apply diff_node_atts_nodup| |].
       + apply NoDup_map_app; [apply diff_edges_nodup|apply diff_edge_atts_nodup|].
         intros x y Hx Hy E. apply (in_diff_edges w p q Hp Hq) in Hx. apply (in_diff_edge_atts w p q ska Hq) in Hy.
-        destruct Hy as (e & -> & _). destruct Hx as [(? & ? & _ & -> & _)|(? & ? & _ & -> & _)]; cbn in E; inversion E.
+        destruct Hy as (e & rq0 & -> & _). destruct Hx as [(? & ? & _ & -> & _)|(? & ? & _ & -> & _)]; cbn in E; inversion E.
       + intros x y Hx Hy E. apply (in_diff_node_atts w p q ska Hq) in Hx. destruct Hx as (n & -> & _).
         apply in_app_or in Hy. destruct Hy as [Hy|Hy].
         * apply (in_diff_edges w p q Hp Hq) in Hy.
           destruct Hy as [(? & ? & _ & -> & _)|(? & ? & _ & -> & _)]; cbn in E; inversion E.
-        * apply (in_diff_edge_atts w p q ska Hq) in Hy. destruct Hy as (e & -> & _). cbn in E.
+        * apply (in_diff_edge_atts w p q ska Hq) in Hy. destruct Hy as (e & rq0 & -> & _). cbn in E.
           inversion E.
     - intros x y Hx Hy E. apply diff_nodes_shape in Hx.
       apply in_app_or in Hy. destruct Hy as [Hy|Hy].
@@ -206,7 +206,7 @@ Section InstCanon.
         * apply (in_diff_edges w p q Hp Hq) in Hy.
           destruct Hy as [(? & ? & _ & -> & _)|(? & ? & _ & -> & _)];
             destruct Hx as [(? & ->)|(? & ? & ->)]; cbn in E; inversion E.
-        * apply (in_diff_edge_atts w p q ska Hq) in Hy. destruct Hy as (e & -> & _).
+        * apply (in_diff_edge_atts w p q ska Hq) in Hy. destruct Hy as (e & rq0 & -> & _).
           destruct Hx as [(? & ->)|(? & ? & ->)]; cbn in E; inversion E.
   Qed.
 
@@ -218,7 +218,7 @@ Section InstCanon.
     - apply (in_diff_node_atts w p q ska Hq) in H. destruct H as (n & -> & _). cbn; split; [reflexivity|lia].
     - apply (in_diff_edges w p q Hp Hq) in H.
       destruct H as [(? & ? & _ & -> & _)|(? & ? & _ & -> & _)]; cbn; split; [reflexivity|lia|reflexivity|lia].
-    - apply (in_diff_edge_atts w p q ska Hq) in H. destruct H as (e & -> & _). cbn; split; [reflexivity|lia].
+    - apply (in_diff_edge_atts w p q ska Hq) in H. destruct H as (e & rq0 & -> & _). cbn; split; [reflexivity|lia].
   Qed.
 End InstCanon.
 
@@ -352,9 +352,9 @@ Proof.
 Qed.
 
 Theorem diff_apply_exact_struct a b s :
-  WFs a -> WFs b -> reparent_ok a b = true -> apply_ops (diff a b) a = Ok s -> s = b.
+  WFs a -> WFs b -> apply_ops (diff a b) a = Ok s -> s = b.
 Proof.
-  intros Wa Wb Hrep Hok. apply WFs_split in Wa, Wb. destruct Wa as [Ha Oa], Wb as [Hb Ob].
+  intros Wa Wb Hok. apply WFs_split in Wa, Wb. destruct Wa as [Ha Oa], Wb as [Hb Ob].
   apply apply_ops_loop in Hok. destruct Hok as [t Hok].
   pose proof (apply_loop_Struct _ _ _ _ _ Ha Hok) as Hs.
   apply look_ext; [exact Hs|exact Hb|]. intros sl.
